@@ -22,11 +22,12 @@ import Driver.EditDoc
 import Driver.StringCase
 import Driver.Verify
 import Driver.Injection
+import Driver.LspRequests
 
 open Lean Driver
 
 def allOps : List (String × Handler) :=
-  notationOps ++ indentOps ++ printOps ++ suppressOps ++ spliceOps ++ topoOps ++ selectOps ++ workerOps ++ lspOps ++ frontendsOps ++ loaderOps ++ editDocOps ++ stringCaseOps ++ verifyOps ++ injectionOps
+  notationOps ++ indentOps ++ printOps ++ suppressOps ++ spliceOps ++ topoOps ++ selectOps ++ workerOps ++ lspOps ++ frontendsOps ++ loaderOps ++ editDocOps ++ stringCaseOps ++ verifyOps ++ injectionOps ++ lspRequestsOps
 
 /-- ops that read or extend the driver state (registered documents) -/
 def allStateOps : List (String × SHandler) :=
